@@ -114,10 +114,14 @@ def check_stream(case, stats):
             ev = gh.GherkinEvents(gh.GherkinEvents.Options(*opts))
             per_source = []
             for se in gh.SourceEvents(paths).enum():
+                se_before = json.loads(json.dumps(se))
                 if case.get("api") == "reordered-keys":
                     # the same source envelope with its keys in another order (e.g. after a sort-keys JSON round trip)
                     se = {"source": {k: se["source"][k] for k in ("mediaType", "data", "uri")}}
-                per_source.append(list(ev.enum(se)))
+                got_envs = list(ev.enum(se))
+                per_source.append(got_envs)
+                if case.get("api") != "reordered-keys" and se != se_before:
+                    raise Violation(case, "GherkinEvents.enum modified the source event it was given, %s" % diff_text(se, se_before, "after", "before"))
             flat = [e for es in per_source for e in es]
         for e in flat:
             try:
